@@ -314,6 +314,15 @@ def analyse(view, local_crates, X=None, allow_extra=()):
                 stats["drops_checked"] += 1
                 if l in state and l != 0:
                     report("C01.LIN", "local %s dropped while it may hold an error" % local_desc(b, l), bb)
+                    lt = b.lty(l)
+                    if lt["k"] == "adt" and not lt["path"].startswith(("std::", "core::", "alloc::")):
+                        # a struct of the library itself that keeps the accumulated error in a field: the typestate is not
+                        # field-sensitive (the error may have been moved out of the field before the rest is dropped)
+                        for f_ in findings.values():
+                            if f_.at == view.blocks[bb]["term"].get("at", "") and "dropped while" in f_.what:
+                                f_.undecided = True
+                                if "not recognised" not in f_.what:
+                                    f_.what += " - a struct of the library with the error in a field; field-wise moves are not read: not recognised (undecided)"
                 state.discard(l)
             outs[t["target"]] = frozenset(state)
         elif k == "switch":
